@@ -288,6 +288,42 @@ def replay_header_blocks(rep):
     rep.evaluations += n
 
 
+def order_worker(arg):
+    """in a process that has parsed nothing yet: the canonical values of type a, then those of type b; what b gives"""
+    a, b = arg
+    from .. import corpus
+
+    def parse_all(t):
+        cls = corpus.resolve('cryptoparser.' + t[1])
+        out = []
+        for text in t[7]:
+            o, obj, _ = call(cls.parse_exact_size, text.encode())
+            co = call(lambda x: bytes(x.compose()), obj) if o == 'ok' else ('-', b'')
+            out.append([o, digest(project(obj)) if o == 'ok' else '-', co[0], digest(list(co[1])) if co[0] == 'ok' else '-'])
+        return out
+    if a is not None:
+        parse_all(TYPES[a])
+    return parse_all(TYPES[b])
+
+
+def order_phase(rep):
+    """what a field type parses to must not depend on which other field type the process has parsed before (a header block
+    holds them in any order): every ordered pair of types, each in a process of its own, against the type parsed first"""
+    from ..par import pmap
+    n = len(TYPES)
+    args = [(None, b) for b in range(n)] + [(a, b) for a in range(n) for b in range(n) if a != b]
+    res = dict(zip(args, pmap(order_worker, args, chunk=1)))
+    events = []
+    for (a, b), got in res.items():
+        if a is None:
+            continue
+        events.append({'ev': 'order', 'type': TYPES[b][0], 'before': TYPES[a][0], 'same': got == res[(None, b)],
+                       'alone': res[(None, b)], 'after': got})
+        rep.case(digest(['order', TYPES[a][0], TYPES[b][0]]))
+    rep.extra['ordered_pairs_of_field_types_in_fresh_processes'] = len(events)
+    return events
+
+
 def fragment_block():
     """a header block of fields the library does NOT know whose names are fragments of names it knows (Cookie, Transport-Security,
     Policy, Options, ...), each with a value its longer namesake accepts: they stay unknown fields under their own name"""
@@ -321,6 +357,7 @@ def names_of(data):
 
 def run(rep):
     from .. import corpus
+    order_events = order_phase(rep)          # first: the forked workers inherit a process that has parsed nothing
     replay_engine(rep)
     replay_prims(rep)
     replay_header_blocks(rep)
@@ -420,13 +457,24 @@ def run(rep):
     c18_engine.run_composer(rep, thorough)
     rep.sample(events[0])
     rep.sample(events[len(events) // 2])
-    slim = [{k: e[k] for k in ('out', 'canon_out', 'compose_in_set', 'same', 'names_same')} for e in events]
+    for e in events:
+        e['ev'] = 'spell'
+    nspell = len(events)
+    for e in order_events:
+        e.update(out='ok', canon_out='ok', compose_in_set=True, names_same=True, id=-1, path=['after:' + e['before']], text='-')
+    events = events + order_events
+    slim = [{k: e[k] for k in ('ev', 'out', 'canon_out', 'compose_in_set', 'same', 'names_same')} for e in events]
     traces = [slim[i:i + 4000] for i in range(0, len(slim), 4000)]
     verdicts = [(tup, events[ti * 4000 + ei]) for tup, ti, ei, _ in judge.run(rep, 'Trace_TextField', list(enumerate(traces)), 'spell')]
     # a spelling two actions away is attributed to a single action when that action alone already fails for the same value
     single = {(e['id'], e['path'][0]) for tup, e in verdicts if len(e['path']) == 1}
     for tup, e in verdicts:
         clause = tup[1]
+        if e.get('ev') == 'order':
+            rep.violation('%s|result-depends-on-what-was-parsed-before|%s' % (e['type'], e['path'][0]),
+                          '%s: canonical values parse or compose differently in a process that parsed %s values before' % (e['type'], e['before']),
+                          {k: e[k] for k in ('type', 'before', 'alone', 'after')})
+            continue
         if len(e['path']) == 2 and ((e['id'], e['path'][0]) in single or (e['id'], e['path'][1]) in single):
             continue
         path = '+'.join(e['path'])
